@@ -32,7 +32,7 @@ Inductive obs := Ob (cur loader known hash32 jdig sdig : Z).
 Inductive op :=
 (* source edit: node 0 applyUpdate([e]); hs = low 32 bits of the 128-bit hash of e, compact e, wire e, wire (compact e);
    szs = len(Name)+len(Data)+60 of e and of compact e (what the byte budget of a diff counts) *)
-| OEdit (e : event) (hs : list Z) (szs : list Z) (o : obs)
+| OEdit (e : event) (hs : list Z) (szs : list Z) (amb : list (name * Z)) (gord : list Z) (o : obs)
 (* node [to] asks its upstream for a diff from its loaderVersion with the item and byte limits, the answer is cut to
    [cut] events and applied *)
 | ODeliver (to max_items max_bytes cut : Z) (amb : list (name * Z)) (gord : list Z) (o : obs)
@@ -74,7 +74,7 @@ Definition sizes4 (szs : list Z) : list Z :=
   match szs with [a; b] => [a; b; a; b] | _ => [] end.
 Fixpoint build_htab (ops : list op) : htab :=
   match ops with
-  | OEdit e hs szs _ :: r => zip_forms (forms e) hs (sizes4 szs) ++ build_htab r
+  | OEdit e hs szs _ _ _ :: r => zip_forms (forms e) hs (sizes4 szs) ++ build_htab r
   | _ :: r => build_htab r
   | [] => []
   end.
@@ -108,11 +108,11 @@ Section Run.
   (* the node an operation touches, its index, its state afterwards, and the observation to compare with *)
   Definition post (ns : nodes) (o : op) : option (nat * node * obs) :=
     match o with
-    | OEdit e _ _ ob =>
+    | OEdit e _ _ amb gord ob =>
         let n := getn ns 0 in
         match apply_update H (nd_j n) [e] (e_ver e) with
         | None => None
-        | Some (j', evs) => Some (0%nat, Nd j' (apply_events fixm fixg [] [] (nd_s n) evs), ob)
+        | Some (j', evs) => Some (0%nat, Nd j' (apply_events fixm fixg amb gord (nd_s n) evs), ob)
         end
     | ODeliver to mx mb cut amb gord ob =>
         let n := getn ns to in
